@@ -6,7 +6,7 @@ numeric exactness shared with C11 clause 4.
 """
 import json, os
 from ..core import callee_of, callee_names, is_call_to, unwrap, receiver_root
-from ..families import bodies_of_fn, orientation_of_region
+from ..families import bodies_of_fn, orientation_of_region, describe
 from ..wire import _sccs
 from ..ranges import canon
 from .c11 import comparator_tables, CMP_O, CMP_B, arm_summary
@@ -370,6 +370,52 @@ def run(ctx):
             else:
                 ctx.bad('C12.5-zip-needs-length', base.rsplit('::', 1)[-1], '%s compares two sequences element by element over their common prefix and never compares their lengths: a sequence and a proper prefix of it are Equal'
                         % base.rsplit('::', 1)[-1], ctx.where(zips[0][0], zips[0][1]), key='SHAPE:%s:zip-without-length' % base)
+
+
+    # a sequence is compared element by element until a pair differs UNDER THE ORDER: the comparison of elements sits in the walk
+    ctx.rule('C12.5-elements-in-the-walk', 'every term-against-term comparison on the comparison path whose operands are elements of two sequences (items of a zip / find / position over them) sits inside the loop that walks '
+             'the sequences: comparing the one pair picked by some other test (the first pair that is not structurally identical) and returning its verdict stops at a pair the order calls Equal - {1, a} and {1.0, b}', floor=4)
+    n_el = 0
+    seen_el = set()
+    for root in (CMP_O, CMP_B):
+        if root not in ctx.F.bodies:
+            continue
+        for q in sorted(P.reachable_from([root])):
+            if ctx.F.bodies[q]['crate'] != 'erltf' or q in seen_el:
+                continue
+            seen_el.add(q)
+            XB = P.B(q)
+            live = XB.live_blocks()
+            loops = set()
+            for c in _sccs(XB, live):
+                if len(c) > 1 or (c and c[0] in XB.succ(c[0])):
+                    loops |= set(c)
+            # items of iterator searches / walks over term sequences
+            items = []
+            for bb, t in XB.calls():
+                nm = (callee_of(t)[0] or '').rsplit('::', 1)[-1]
+                if bb in live and nm in ('next', 'find', 'find_map', 'nth', 'last', 'position', 'get', 'first', 'min_by', 'max_by') and not t['dst'].get('p') and ('OwnedTerm' in XB.local_ty(t['dst']['l']) or 'BorrowedTerm' in XB.local_ty(t['dst']['l'])) \
+                        and XB.local_ty(t['dst']['l']).startswith('core::option::Option<'):
+                    items.append(t['dst']['l'])
+            if not items:
+                continue
+            d = XB.derived_locals(items) | set(items)
+            for bb, t in XB.calls():
+                if bb not in live or (callee_of(t)[0] or '') not in ('core::cmp::Ord::cmp', 'core::cmp::PartialOrd::partial_cmp') or len(t['args']) < 2:
+                    continue
+                aty = t.get('aty') or ['', '']
+                if not all(a_.replace("<'a>", '').replace("<'_>", '') in ('&erltf::term::OwnedTerm', '&erltf::borrowed::BorrowedTerm', '&&erltf::term::OwnedTerm', '&&erltf::borrowed::BorrowedTerm') for a_ in aty[:2]):
+                    continue
+                if not all(any(l in d for l in XB._op_locals(a)) for a in t['args'][:2]):
+                    continue
+                n_el += 1
+                inst = '%s:cmp@%s' % (q.split('::{')[0].rsplit('::', 1)[-1] if '>::' not in q else ('owned' if 'OwnedTerm' in q else 'borrowed'), describe(XB, canon(XB, t['args'][0]))[:40])
+                if bb in loops:
+                    ctx.ok('C12.5-elements-in-the-walk', inst, 'inside the loop over the sequences', ctx.where(XB, bb))
+                else:
+                    ctx.bad('C12.5-elements-in-the-walk', inst, 'two elements picked out of the sequences are compared once, outside any loop, and that verdict is the answer: when the order calls this pair Equal (1 and 1.0, an integer and '
+                            'the same value as a big integer) the elements after it are never looked at', ctx.where(XB, bb), key='SHAPE:%s:single-pair-decides' % q.split('::{')[0])
+    ctx.anchor(n_el >= 4, 'term-against-term comparisons of sequence elements on the comparison path (tuple, list, improper list, map keys / values, free variables)')
 
 
 def _digit_walk(P, fn, bodies=None):
